@@ -7,13 +7,14 @@ import (
 )
 
 type codecSpec struct {
-	harnesses []string
-	reach     []string
-	loop      int
-	perJob    int
-	opts      []OptSet
-	filter    func(p *corpus.Pkg) bool
-	profile   string
+	harnesses    []string
+	reach        []string
+	loop         int
+	perJob       int
+	opts         []OptSet
+	filter       func(p *corpus.Pkg) bool
+	profile      string
+	harnessesFor func(p *corpus.Pkg, tier string) []string
 }
 
 func tierOf(ctx *Ctx) corpus.Tier {
@@ -55,9 +56,9 @@ func prepareCodec(ctx *Ctx, spec codecSpec) (*Prepared, error) {
 	}
 	perJob := spec.perJob
 	if perJob == 0 {
-		perJob = 4
+		perJob = 2
 	}
-	codecJobs(ctx, mod, entries, spec.harnesses, jo, perJob, p)
+	codecJobs(ctx, mod, entries, spec.harnesses, spec.harnessesFor, jo, perJob, p)
 	for _, e := range entries {
 		if e.Err != "" {
 			continue
@@ -107,7 +108,14 @@ func PrepareC06(ctx *Ctx) (*Prepared, error) {
 }
 
 func PrepareC07(ctx *Ctx) (*Prepared, error) {
-	return prepareCodec(ctx, codecSpec{profile: "lite", harnesses: []string{"VH_C07", "VH_C07W"}})
+	return prepareCodec(ctx, codecSpec{profile: "lite", perJob: 1, harnesses: []string{"VH_C07", "VH_C07W"},
+		harnessesFor: func(p *corpus.Pkg, tier string) []string {
+			if tier == "thorough" || p.Ctor == "T" || p.Ctor == "T[]" || ((p.Leaf == "int32" || p.Leaf == "string") && !p.Deep) {
+				return []string{"VH_C07", "VH_C07W"}
+			}
+			// quick tier: the corruption-window harness is limited to the shapes above
+			return []string{"VH_C07"}
+		}})
 }
 
 func PrepareC08(ctx *Ctx) (*Prepared, error) {
